@@ -298,6 +298,62 @@ def _split_conditions(stmts: list[ast.stmt]) -> list[ast.stmt]:
     return out
 
 
+def _split_tuple_assigns(stmts: list[ast.stmt]) -> list[ast.stmt]:
+    """`a, b = (x, y)` -> `a = x` `b = y` when no target occurs on the right (what `a, b = helper(..)` becomes once the helper's
+    `return x, y` is substituted): the parts can then be followed one by one."""
+    out: list[ast.stmt] = []
+    for st in stmts:
+        for fld in ("body", "orelse", "finalbody"):
+            blk = getattr(st, fld, None)
+            if isinstance(blk, list) and blk and isinstance(blk[0], ast.stmt):
+                setattr(st, fld, _split_tuple_assigns(blk))
+        if isinstance(st, ast.Try):
+            for h in st.handlers:
+                h.body = _split_tuple_assigns(h.body)
+        if isinstance(st, ast.Assign) and len(st.targets) == 1 and isinstance(st.targets[0], (ast.Tuple, ast.List)) and isinstance(st.value, (ast.Tuple, ast.List)):
+            tg, vs = st.targets[0].elts, st.value.elts
+            names = {t.id for t in tg if isinstance(t, ast.Name)}
+            used = {n.id for v_ in vs for n in ast.walk(v_) if isinstance(n, ast.Name)}
+            if len(tg) == len(vs) and all(isinstance(t, ast.Name) for t in tg) and not any(isinstance(v_, ast.Starred) for v_ in vs) and not (names & used) and len(names) == len(tg):
+                for t, v_ in zip(tg, vs):
+                    node = ast.copy_location(ast.Assign(targets=[t], value=v_), st)
+                    if hasattr(st, "_src"):
+                        node._src = st._src  # type: ignore[attr-defined]
+                    out.append(node)
+                continue
+            # `_, b = (x, y)`: a repeated throw-away target
+            if len(tg) == len(vs) and all(isinstance(t, ast.Name) for t in tg) and not any(isinstance(v_, ast.Starred) for v_ in vs) and not (names & used) and all(t.id == "_" for t in tg if [u.id for u in tg].count(t.id) > 1):
+                for t, v_ in zip(tg, vs):
+                    out.append(ast.copy_location(ast.Assign(targets=[t], value=v_), st))
+                continue
+        out.append(st)
+    return out
+
+
+def _project_tuples(fn: ast.AST) -> None:
+    """`t = (x, y)` bound once and only ever read as `t[0]` / `t[1]`: the subscripts are replaced by x / y (`helper(..)[0]` after the
+    helper's `return x, y` was substituted)."""
+    single = _single_assignments(fn)
+    for name, val in single.items():
+        if not (isinstance(val, ast.Tuple) and val.elts and all(isinstance(x, ast.Name) for x in val.elts)):
+            continue
+        loads = [n for n in ast.walk(fn) if isinstance(n, ast.Name) and n.id == name and isinstance(n.ctx, ast.Load)]
+        subs = [n for n in ast.walk(fn) if isinstance(n, ast.Subscript) and isinstance(n.value, ast.Name) and n.value.id == name and isinstance(n.slice, ast.Constant) and isinstance(n.slice.value, int) and -len(val.elts) <= n.slice.value < len(val.elts)]
+        if not subs or len(subs) != len(loads):
+            continue
+        # the parts must not be rebound between the tuple and its uses: they are locals filled before (single binding)
+        if not all(x.id in single or sum(1 for n in ast.walk(fn) if isinstance(n, ast.Name) and n.id == x.id and isinstance(n.ctx, ast.Store)) <= 1 for x in val.elts):
+            continue
+        for par in ast.walk(fn):
+            for fld, v_ in ast.iter_fields(par):
+                if isinstance(v_, ast.AST) and any(v_ is s_ for s_ in subs):
+                    setattr(par, fld, ast.copy_location(ast.Name(id=val.elts[v_.slice.value].id, ctx=ast.Load()), v_))
+                elif isinstance(v_, list):
+                    for i, x in enumerate(v_):
+                        if isinstance(x, ast.AST) and any(x is s_ for s_ in subs):
+                            v_[i] = ast.copy_location(ast.Name(id=val.elts[x.slice.value].id, ctx=ast.Load()), x)
+
+
 def _is_none_test(t: ast.expr) -> str | None:
     """x for `x is None`."""
     if isinstance(t, ast.Compare) and len(t.ops) == 1 and isinstance(t.ops[0], ast.Is) and isinstance(t.left, ast.Name) and isinstance(t.comparators[0], ast.Constant) and t.comparators[0].value is None:
@@ -466,16 +522,20 @@ def _inline_generator_loops(repo: Repo, view: FuncInfo) -> bool:
     changed = False
     taken = {n.id for n in ast.walk(view.node) if isinstance(n, ast.Name)}
 
-    def tail_yields(f: FuncInfo) -> bool:
+    def tail_yields(f: FuncInfo) -> tuple[bool, bool]:
+        """(the helper has a shape that can be substituted, every yield ends its loop iteration)"""
         ok = True
+        all_tail = True
 
         def blockv(stmts: list[ast.stmt], tail: bool) -> None:
-            nonlocal ok
+            nonlocal ok, all_tail
             for i, st in enumerate(stmts):
                 last = tail and i == len(stmts) - 1
                 if isinstance(st, ast.Expr) and isinstance(st.value, ast.Yield):
-                    if not last or st.value.value is None:
+                    if st.value.value is None:
                         ok = False
+                    if not last:
+                        all_tail = False
                 elif isinstance(st, ast.If):
                     blockv(st.body, last)
                     blockv(st.orelse, last)
@@ -490,7 +550,11 @@ def _inline_generator_loops(repo: Repo, view: FuncInfo) -> bool:
 
         # yields outside any loop of the helper are only in tail position of the helper itself
         blockv([s_ for s_ in f.node.body], True)
-        return ok and not any(isinstance(n, (ast.FunctionDef, ast.AsyncFunctionDef, ast.ClassDef, ast.Global, ast.Nonlocal, ast.Try, ast.With)) for n in own_nodes(f.node))
+        # a `return` anywhere but as the helper's last statement would have to leave the substituted code
+        rets = [n for n in own_nodes(f.node) if isinstance(n, ast.Return)]
+        if any(r is not f.node.body[-1] for r in rets):
+            ok = False
+        return ok and not any(isinstance(n, (ast.FunctionDef, ast.AsyncFunctionDef, ast.ClassDef, ast.Global, ast.Nonlocal, ast.Try, ast.With)) for n in own_nodes(f.node)), all_tail
 
     def expand(st: ast.For, f: FuncInfo) -> list[ast.stmt] | None:
         call = st.iter
@@ -531,7 +595,10 @@ def _inline_generator_loops(repo: Repo, view: FuncInfo) -> bool:
                     return True
             return False
 
-        if escapes(st.body) or not tail_yields(f) or (continues(st.body) and yield_outside_loops(f.node.body)):
+        shape_ok, all_tail = tail_yields(f)
+        # `continue` in the consumer means "next yielded element" = resume the helper after the yield: only the same as a
+        # `continue` of the helper's loop when the yield ends that loop's iteration
+        if escapes(st.body) or not shape_ok or (continues(st.body) and (not all_tail or yield_outside_loops(f.node.body))):
             return None
         a = f.node.args
         pos = [p_.arg for p_ in [*a.posonlyargs, *a.args]]
@@ -612,6 +679,75 @@ def _inline_generator_loops(repo: Repo, view: FuncInfo) -> bool:
     return changed
 
 
+def _generator_comprehensions_to_loops(repo: Repo, view: FuncInfo) -> bool:
+    """`return {e for x in gen(..) if c}` / `v = [e for x in gen(..)]` over a repo generator helper -> `acc = set()`,
+    `for x in gen(..): if c: acc.add(e)`, `return acc`: the statement loop can then take the helper's body."""
+    changed = False
+    taken = {n.id for n in ast.walk(view.node) if isinstance(n, ast.Name)}
+    counter = [0]
+
+    def fresh() -> str:
+        while True:
+            counter[0] += 1
+            name = f"collected{counter[0]}"
+            if name not in taken:
+                taken.add(name)
+                return name
+
+    def rewrite(st: ast.stmt) -> list[ast.stmt] | None:
+        if not (isinstance(st, (ast.Return, ast.Assign, ast.AnnAssign)) and getattr(st, "value", None) is not None):
+            return None
+        val = st.value
+        kind = None
+        comp = val
+        if isinstance(val, ast.Call) and isinstance(val.func, ast.Name) and val.func.id in ("set", "list") and len(val.args) == 1 and not val.keywords and isinstance(val.args[0], ast.GeneratorExp):
+            kind, comp = val.func.id, val.args[0]
+        elif isinstance(val, ast.SetComp):
+            kind = "set"
+        elif isinstance(val, ast.ListComp):
+            kind = "list"
+        if kind is None or len(comp.generators) != 1 or comp.generators[0].is_async or not isinstance(comp.generators[0].iter, ast.Call):
+            return None
+        g = comp.generators[0]
+        f = _helper_of(repo, view, g.iter)
+        if f is None or not _is_generator(f):
+            return None
+        acc = fresh()
+        init = ast.copy_location(ast.Assign(targets=[ast.Name(id=acc, ctx=ast.Store())], value=ast.Call(func=ast.Name(id=kind, ctx=ast.Load()), args=[], keywords=[])), st)
+        add = ast.copy_location(ast.Expr(value=ast.Call(func=ast.Attribute(value=ast.Name(id=acc, ctx=ast.Load()), attr="add" if kind == "set" else "append", ctx=ast.Load()), args=[comp.elt], keywords=[])), st)
+        body: list[ast.stmt] = [add]
+        for c in reversed(g.ifs):
+            body = [ast.copy_location(ast.If(test=c, body=body, orelse=[]), st)]
+        loop = ast.copy_location(ast.For(target=g.target, iter=g.iter, body=body, orelse=[]), st)
+        for n in ast.walk(loop.target):
+            if isinstance(n, (ast.Name, ast.Tuple, ast.List)):
+                n.ctx = ast.Store()
+        st.value = ast.copy_location(ast.Name(id=acc, ctx=ast.Load()), val)
+        return [init, loop, st]
+
+    def block(stmts: list[ast.stmt]) -> list[ast.stmt]:
+        nonlocal changed
+        out: list[ast.stmt] = []
+        for st in stmts:
+            for fld in ("body", "orelse", "finalbody"):
+                blk = getattr(st, fld, None)
+                if isinstance(blk, list) and blk and isinstance(blk[0], ast.stmt):
+                    setattr(st, fld, block(blk))
+            if isinstance(st, ast.Try):
+                for h in st.handlers:
+                    h.body = block(h.body)
+            got = rewrite(st)
+            if got is not None:
+                out += got
+                changed = True
+            else:
+                out.append(st)
+        return out
+
+    view.node.body = block(view.node.body)
+    return changed
+
+
 def _clone_src(e, ctx: FuncInfo):
     """Copy of a helper's statement for substitution into a view: every node remembers where it came from."""
     if isinstance(e, list):
@@ -666,6 +802,7 @@ def search_view(repo: Repo, fi: FuncInfo) -> FuncInfo:
         # helper calls the inliner could not reach (nested in an expression, generator helpers in a for header): make them
         # reachable and substitute once more
         changed = _hoist_helper_calls(repo, v0)
+        changed = _generator_comprehensions_to_loops(repo, v0) or changed
         changed = _inline_generator_loops(repo, v0) or changed
         inlined += v0.__dict__.get("gen_inlined", [])
         if not changed:
@@ -677,6 +814,8 @@ def search_view(repo: Repo, fi: FuncInfo) -> FuncInfo:
         v0 = v1
     node = v0.node
     _positionalise(node, repo)
+    node.body = _split_tuple_assigns(node.body)
+    _project_tuples(node)
     node.body = _thread_none_exits(node.body)
     _eliminate_aliases(node, set(fi.param_names))
     node.body = _split_conditions(node.body)
@@ -1445,8 +1584,20 @@ def build(repo: Repo, fi: FuncInfo) -> SearchModel | None:
     for s, elt, comp, it_, g, text in raw:
         if it_ is not None and s.receiver.isidentifier() and s.receiver not in sinks and s.receiver not in v.param_names and s.method in ("append", "add", "extend", "update", "+="):
             names = [x.id for x in elt.elts] if isinstance(elt, (ast.Tuple, ast.List)) and all(isinstance(x, ast.Name) for x in elt.elts) else [elt.id] if isinstance(elt, ast.Name) else None
-            if names:
+            # a list that is rebound / emptied again between being filled and being consumed says nothing about what is consumed
+            stores = sum(1 for n_ in ast.walk(fn) if isinstance(n_, ast.Name) and n_.id == s.receiver and isinstance(n_.ctx, (ast.Store, ast.Del)))
+            shrunk = any(isinstance(n_, ast.Call) and isinstance(n_.func, ast.Attribute) and dotted(n_.func.value) == s.receiver and n_.func.attr in ("clear", "pop", "remove", "popleft", "discard", "sort", "reverse") for n_ in ast.walk(fn))
+            if names and stores <= 1 and not shrunk:
                 collectors.setdefault(s.receiver, []).append((names, it_, all_conds(v, elt) + it_.extra, elt))
+    def collector_of(e: ast.AST) -> str | None:
+        """the collector list an expression denotes, also through locals that are plain aliases of it (`imported = below`)"""
+        e = strip(e)
+        seen_ = 0
+        while isinstance(e, ast.Name) and e.id not in collectors and e.id in single and e.id not in v.param_names and seen_ < 4:
+            e = strip(single[e.id])
+            seen_ += 1
+        return e.id if isinstance(e, ast.Name) and e.id in collectors else None
+
     for s in sites:
         if s.receiver not in sinks:
             continue
@@ -1454,7 +1605,8 @@ def build(repo: Repo, fi: FuncInfo) -> SearchModel | None:
             if niter_of(elt) is not None or niter_of(s.node) is not None:
                 continue
             b_elt = strip(elt)
-            if comp is None and isinstance(b_elt, ast.Name) and b_elt.id in collectors:
+            if comp is None and collector_of(b_elt) is not None:
+                b_elt = ast.Name(id=collector_of(b_elt), ctx=ast.Load())
                 # the collected list is added as a whole
                 for names, it_, ccs, c_elt in collectors[b_elt.id]:
                     cs_ = list(ccs) + all_conds(v, s.node)
@@ -1468,10 +1620,10 @@ def build(repo: Repo, fi: FuncInfo) -> SearchModel | None:
             for a in ancestors(elt):
                 cands = [(a.target, a.iter)] if isinstance(a, (ast.For, ast.AsyncFor)) else [(g_.target, g_.iter) for g_ in a.generators] if isinstance(a, (*_COMPS, ast.DictComp)) else []
                 for tgt, it_expr in cands:
-                    src = strip(it_expr)
-                    if isinstance(src, ast.Name) and src.id in collectors:
-                        feeder = (tgt, src.id)
-                if feeder or isinstance(a, ast.stmt) and not isinstance(a, (ast.For, ast.AsyncFor, ast.If)):
+                    src = collector_of(it_expr)
+                    if src is not None:
+                        feeder = (tgt, src)
+                if feeder or isinstance(a, (ast.FunctionDef, ast.AsyncFunctionDef, ast.Lambda)):
                     break
             if feeder is None:
                 continue
